@@ -268,6 +268,23 @@ class LoopChecker:
                 return c.fail(f"'!=' loop on {a}: the step {inc} is not shown to hit {unparse(tnode)} exactly")
             if isinstance(op, ast.NotEq) and dec is not None:
                 return c.fail(f"'while {a} != {unparse(tnode)}' with {a} -= {dec}: no dominating order guard makes {a} >= target, the loop does not terminate when it starts below")
+        # ---- V-COUNT-UP by growth: while len(L) < N: ... L.append(x) (exactly once on every path) ...
+        if isinstance(test, ast.Compare) and len(test.ops) == 1 and isinstance(test.ops[0], ast.Lt) and isinstance(test.left, ast.Call) and unparse(test.left.func) == "len" and len(test.left.args) == 1 and isinstance(test.left.args[0], ast.Name):
+            lst = test.left.args[0].id
+            nnode = test.comparators[0]
+            nnames = {x.id for x in ast.walk(nnode) if isinstance(x, ast.Name)}
+            appends = [s for s in body if isinstance(s, ast.Expr) and isinstance(s.value, ast.Call) and isinstance(s.value.func, ast.Attribute) and s.value.func.attr == "append" and unparse(s.value.func.value) == lst]
+            others = [x for s in body for x in ast.walk(s) if isinstance(x, ast.Call) and isinstance(x.func, ast.Attribute) and unparse(x.func.value) == lst and x.func.attr in ("pop", "remove", "clear", "insert", "extend", "reverse", "sort")]
+            rebinds = lst in assigned
+            skips = any(isinstance(x, ast.Continue) for s in body for x in ast.walk(s))
+            if len(appends) == 1 and not others and not rebinds and not skips and not (nnames & assigned):
+                iv = self._entry_iv(n, nnode)
+                if iv.hi is not None and iv.hi <= SMALL:
+                    return c.ok("V-COUNT-UP", f"one element appended to {lst} per iteration until it has {unparse(nnode)} in {iv}", f"<= {iv.hi}")
+                sg = self._size_guard(nnode, n)
+                if sg:
+                    return c.ok("V-COUNT-UP", f"one element appended to {lst} per iteration; {sg}", "proportional to the input size")
+                return c.fail(f"'while len({lst}) < {unparse(nnode)}': the count {unparse(nnode)} in {iv} is neither small nor related to the input size by a dominating guard")
         # ---- V-SHIFT: while x [> c]: x >>= k
         var = None
         if isinstance(test, ast.Name):
